@@ -33,7 +33,7 @@ INPLACE = ["set_channel", "transpose", "scale", "quantise", "quantise_note_lengt
 OTHER_MUT = ["normalise", "pad", "add_absolute_message", "add_relative_message", "merge", "concatenate",
              "overwrite_absolute_messages", "overwrite_relative_messages", "quantise_and_normalise"]
 READS = ["read_abs", "read_rel", "refresh", "get_sequence_duration_relation", "is_empty", "get_message_times_of_type",
-         "get_message_pairings", "to_midi_track"]
+         "get_message_pairings", "to_midi_track", "get_sequence_duration"]
 
 
 def bar_len(n, d):
@@ -356,10 +356,17 @@ class FamWorld:
             if src.kind != "seq":
                 return "skip:kind"
             extra = [music.build_sequence(x["spec"], x["mode"]) for x in ev.get("extra", [])]
+            for x in extra:
+                # the other inputs of the call are parties too: nothing derived from `src` may share with them
+                if len(self.fams) + 1 < MAX_FAMILIES:
+                    self._add(Family("seq", x, "co-input", None))
             lst = list(extra)
             pos = ev.get("pos", 0) % (len(lst) + 1)
             lst.insert(pos, seqs[0])
             tracks, e = _call(Sequence.sequences_split_bars, lst, ev.get("meta", 0) % len(lst), route == "bars_q")
+            for f_ in self.fams:
+                if f_.route == "co-input":
+                    f_.snap = f_.snapshot()     # being read may regenerate a view (flags), not the value
             if e is not None:
                 self._after_step(src, route)
                 return f"skip:raised:{type(e).__name__}"
@@ -396,10 +403,16 @@ class FamWorld:
             if src.kind != "seq":
                 return "skip:kind"
             extra = [music.build_sequence(x["spec"], x["mode"]) for x in ev.get("extra", [])]
+            for x in extra:
+                if len(self.fams) + 1 < MAX_FAMILIES:
+                    self._add(Family("seq", x, "co-input", None))
             lst = list(extra)
             pos = ev.get("pos", 0) % (len(lst) + 1)
             lst.insert(pos, src.root)
             c, e = _call(Composition.from_sequences, lst, ev.get("meta", 0) % len(lst))
+            for f_ in self.fams:
+                if f_.route == "co-input":
+                    f_.snap = f_.snapshot()
             if e is not None:
                 self._after_step(src, route)
                 return f"skip:raised:{type(e).__name__}"
@@ -567,11 +580,16 @@ class FamWorld:
                 before = observe.canon_value(s)
             except Unreadable:
                 judge = False
-        _, e = _call(OPS[name][2], s, ev.get("args", {}))
+        rv, e = _call(OPS[name][2], s, ev.get("args", {}))
         if e is not None:
             raise seqops_Foreign(f"{name}:{type(e).__name__}")
         self.perturbations += 1
         self.stats[f"fault/{name}"] += 1
+        if self.prop == "C11" and name in ("get_message_pairings", "get_message_times_of_type", "get_sequence_duration"):
+            bad = _non_int_ticks(rv, name)
+            if bad:
+                raise _V(Violation("NON-INT", f"{name} on family #{fam.index} ({fam.kind}, {fam.route}) returned non-integer ticks: "
+                                   f"{bad[:4]}", {"op": name, "route": fam.route}))
         if judge:
             self._value_still(fam, s, before, name)
         self._after_step(fam, name)
@@ -807,6 +825,27 @@ class FamWorld:
                         return v.v
             self.stats["reach_audit/final_audits"] += 1
         return None
+
+
+def _non_int_ticks(rv, name):
+    """Tick values in what a getter hands to the caller (appliers return plain tuples: index 2 of a message tuple is its time)."""
+    bad = []
+    if name == "get_sequence_duration":
+        if rv is not None and not observe.is_integer_value(rv):
+            bad.append(rv)
+        return bad
+    if name == "get_message_times_of_type":
+        for t, m in rv:
+            for x in (t, m[2]):
+                if x is not None and not observe.is_integer_value(x):
+                    bad.append(x)
+        return bad
+    for ch, pairings in rv:
+        for p in pairings:
+            for m in p:
+                if m[2] is not None and not observe.is_integer_value(m[2]):
+                    bad.append(m[2])
+    return bad
 
 
 class seqops_Foreign(Exception):
